@@ -1,6 +1,6 @@
 """C18 — the periodic progress runner fires only while running; quiescent after Stop."""
 ID = "C18"
-PROPS = ["F1Verif.Props.C18", "F1Verif.Props.FactsC18", "F1Verif.Props.RefineC18", "F1Verif.Props.RefineC19R", "F1Verif.Props.RefineC18L"]
+PROPS = ["F1Verif.Props.C18", "F1Verif.Props.FactsC18", "F1Verif.Props.RefineC18", "F1Verif.Props.RefineC19R", "F1Verif.Props.RefineC18L", "F1Verif.Props.RefineC18N"]
 RULE = ("engine B on the real raterun.Runner: Stop called while the function is executing (gated), while a due tick is "
         "parked at the raterun.dispatch yield point, between ticks, and cancellation instead of Stop — Stop must not return "
         "before the function has, nothing may be invoked afterwards; a slow function keeping a tick pending across a "
@@ -55,6 +55,6 @@ def distribution(recs):
 
 MANIFEST = {
  "engine": "lean-proof + scripted schedules (hooks)",
- "text": "Event model of the runner goroutine (select over restart / next-schedule timer / ticker / cancellation, timers as environment events, buffered restart channel): for every event sequence the function is invoked at most once per due tick and never before Start (C18_once_per_tick), the timer walks to the next schedule and Restart goes back to the first (C18_schedule_walk), once Stop has returned the goroutine has exited, the function was not executing at that moment and can never be invoked again (C18_quiescent, C18_no_call_after_stop), and a cancelled runner can always exit (C18_no_leak). Inductive invariant over all schedules of events. The pre-repair runner (stopped closed when Start returned) has a kernel-checked counterexample (legacy_stop_does_not_wait) that is replayed on the real code through the raterun.dispatch hook.",
+ "text": "Event model of the runner goroutine (select over restart / next-schedule timer / ticker / cancellation, timers as environment events, buffered restart channel): for every event sequence the function is invoked at most once per due tick and never before Start (C18_once_per_tick), the timer walks to the next schedule and Restart goes back to the first (C18_schedule_walk), once Stop has returned the goroutine has exited, the function was not executing at that moment and can never be invoked again (C18_quiescent, C18_no_call_after_stop), and a cancelled runner can always exit (C18_no_leak). Inductive invariant over all schedules of events. The pre-repair runner (stopped closed when Start returned) has a kernel-checked counterexample (legacy_stop_does_not_wait) that is replayed on the real code through the raterun.dispatch hook. The goroutine of Runner.Start, raterun.New and newSchedules are regenerated and carried by rlLoop_spec / runner_loop_refines / runnerRounds_shape / runner_New_refines / schedules_new_refines: for every script of select choices one invocation per tick received, schedule changes on timer and restart, nothing after the cancellation, the schedule list kept as given.",
  "note": "Go's timers/tickers, channel semantics and scheduler fairness are assumed. The tie is by scripted interleavings at the hook and by timing lower bounds on the real runner; the placement of close(stopped) is additionally tied by a regenerated statement-order fact.",
  "technique": "Lean 4 inductive invariant over an event semantics + scripted-schedule correspondence through verif hooks"}
